@@ -455,6 +455,17 @@ func (e *env) apply(a clienttesting.Action, tracker clienttesting.ObjectTracker)
 			}
 			return true, cur, nil
 		}
+		if verb == "create" && res == "controllerrevisions" {
+			// the API server stamps what it creates: later than every object of the initial world (epoch + created seconds)
+			r := x.GetObject().(*kubeapps.ControllerRevision).DeepCopy()
+			if r.CreationTimestamp.IsZero() {
+				r.CreationTimestamp = metav1.NewTime(epoch.Add(1000000 * time.Second))
+			}
+			if err := tracker.Create(revGVR, r, ns); err != nil {
+				return true, nil, err
+			}
+			return true, r, nil
+		}
 		if verb == "create" && res == "pods" {
 			p := x.GetObject().(*v1.Pod).DeepCopy()
 			if p.Status.Phase == "" {
@@ -819,6 +830,47 @@ func (e *env) refresh(op Op) {
 	}
 }
 
+func (e *env) gcOrphan(uid string) int {
+	n := 0
+	strip := func(refs []metav1.OwnerReference) ([]metav1.OwnerReference, bool) {
+		out, hit := []metav1.OwnerReference{}, false
+		for _, r := range refs {
+			if string(r.UID) == uid {
+				hit = true
+				continue
+			}
+			out = append(out, r)
+		}
+		if len(out) == 0 {
+			out = nil
+		}
+		return out, hit
+	}
+	pods, _ := e.kube.Tracker().List(podGVR, schema.GroupVersionKind{Version: "v1", Kind: "Pod"}, ns)
+	if pl, ok := pods.(*v1.PodList); ok {
+		for i := range pl.Items {
+			p := pl.Items[i].DeepCopy()
+			if refs, hit := strip(p.OwnerReferences); hit {
+				p.OwnerReferences = refs
+				e.kube.Tracker().Update(podGVR, p, ns)
+				n++
+			}
+		}
+	}
+	revs, _ := e.kube.Tracker().List(revGVR, schema.GroupVersionKind{Group: "apps", Version: "v1", Kind: "ControllerRevision"}, ns)
+	if rl, ok := revs.(*kubeapps.ControllerRevisionList); ok {
+		for i := range rl.Items {
+			r := rl.Items[i].DeepCopy()
+			if refs, hit := strip(r.OwnerReferences); hit {
+				r.OwnerReferences = refs
+				e.kube.Tracker().Update(revGVR, r, ns)
+				n++
+			}
+		}
+	}
+	return n
+}
+
 func (e *env) kubelet(op Op) string {
 	obj, err := e.kube.Tracker().Get(podGVR, ns, op.Pod)
 	if err != nil {
@@ -946,6 +998,10 @@ func init() {
 				e.events = 0
 				e.refresh(op)
 				steps = append(steps, map[string]interface{}{"refresh": "ok", "events": e.events, "queue_len": e.ctrl.VerifQueue().Len()})
+			case "gc":
+				// the garbage collector orphans the dependents of an owner that was deleted with the orphan policy: every owner
+				// reference with that UID is removed from the pods and ControllerRevisions of the API state
+				steps = append(steps, map[string]interface{}{"gc": e.gcOrphan(op.What)})
 			case "outage":
 				e.outage = op.On
 				steps = append(steps, map[string]interface{}{"outage": op.On})
